@@ -1,23 +1,30 @@
 /-
-  FixedPointSemM.lean — TOTALITY, part 3: the loop, `solve_goal`, `solve_root_goal`.
+  FixedPointMixM.lean — TOTALITY (mixed polarities), part 3: the loop, `solve_goal`, `solve_root_goal`.
 -/
-import ChalkModel.Lemmas.FixedPointSemL
+import ChalkModel.Lemmas.FixedPointMixL
+import ChalkModel.Lemmas.FixedPointSemM
 
-namespace Chalk.FixedPoint.Cyc
+namespace Chalk.FixedPoint.Mix
+open Chalk.FixedPoint.Cyc (JE JA MinLe InCache InGraph Def Undef flagAt StackExt stackGoals
+  getElem?_lt_length getElem?_prefix headNode mid_cases mid_at Rest Popped setCycle_length setCycle_getElem?_ne
+  setCycle_getElem?_eq updateNode_mid take_mid afterRound finishGoal pushed cacheLookup inCache_iff_lookup
+  minGe_iff solveGoal_cached solveGoal_hit solveGoal_new lookup_some lookup_none stackExt_setCycle_true
+  solveNewSubgoal_step tick_none drain_ok)
 
 section
-variable {c : Bool} {inst : Instance} {dom : List Nat} {rec : SubSolver} {cfg : Cfg} {D : Nat}
+variable {inst : Instance} {P : Nat → Prop} {dom : List Nat} {lvl : Nat → Nat} {rec : SubSolver} {cfg : Cfg} {D : Nat}
 
 /-- the loop stops: with the optimistic provisional answer two rounds are left, or the provisional
     answer is already pessimistic and stable -/
-def Rounds (c : Bool) (inst : Instance) (s0 : St) (g : Nat) (r : Nat) (st : St) : Prop :=
-  (2 ≤ r ∧ st.graph = s0.graph ++ [headNode s0 g (top c)]) ∨
-  (1 ≤ r ∧ st.graph = s0.graph ++ [headNode s0 g (bot c)] ∧ ¬ J c inst (InG c inst st) g)
+def Rounds (inst : Instance) (P : Nat → Prop) (s0 : St) (g : Nat) (r : Nat) (st : St) : Prop :=
+  (2 ≤ r ∧ st.graph = s0.graph ++ [headNode s0 g (topOf inst g)]) ∨
+  (1 ≤ r ∧ st.graph = s0.graph ++ [headNode s0 g (botOf inst g)] ∧
+    ¬ JV inst (topOf inst g) (Opt inst P (InG inst P st) (topOf inst g)) g)
 
-theorem loop_tot (hyp : Hyp c inst dom) (hb : cfg.budget = none) (hrec : SubSpec c inst dom rec)
-    (htot : SubTot c inst dom cfg D rec) {s0 : St} {g : Nat}
+theorem loop_tot (hyp : MHyp inst P dom lvl) (hb : cfg.budget = none) (hrec : SubSpec inst P dom lvl rec)
+    (htot : SubTot inst P dom lvl cfg D rec) {s0 : St} {g : Nat}
     (hres : cfg.overflowDepth < D + (s0.stack.length + 1)) :
-    ∀ (r : Nat) (st : St), LoopSt c inst dom s0 g st → Rounds c inst s0 g r st →
+    ∀ (r : Nat) (st : St), LoopSt inst P dom lvl s0 g st → Rounds inst P s0 g r st →
       ∃ sub s3, solveNewSubgoal inst cfg rec g s0.stack.length s0.graph.length r st = .ok sub s3
   | 0, st, _, hr => by
     cases hr with
@@ -25,11 +32,11 @@ theorem loop_tot (hyp : Hyp c inst dom) (hb : cfg.budget = none) (hrec : SubSpec
     | inr h => exact absurd h.1 (by omega)
   | r + 1, st, L, hr => by
     have ht := tick_none hb st
-    have L0 : LoopSt c inst dom s0 g { st with work := st.work + 1 } := L.work _
-    obtain ⟨cur, m, s1, hi⟩ := solveIteration_tot hyp hrec htot g L.gdom none _ L0.inv
+    have L0 : LoopSt inst P dom lvl s0 g { st with work := st.work + 1 } := L.work _
+    obtain ⟨cur, m, s1, hi⟩ := solveIteration_tot hyp hrec htot g L.gdom none _ L0.inv L0.gtop
       (by show cfg.overflowDepth < D + st.stack.length; rw [L.slen]; exact hres)
-    obtain ⟨i1, hs, _, hf⟩ := solveIteration_sem hyp hrec g L.gdom none _ cur m s1 L0.inv hi
-    obtain ⟨old, new, A⟩ := After.intro L0 i1 hs hf
+    obtain ⟨i1, hs, _, hk, hf⟩ := solveIteration_sem hyp hrec g L.gdom none _ cur m s1 L0.inv L0.gtop hi
+    obtain ⟨old, new, A⟩ := After.intro L0 i1 hs hf hk
     have hlt : s0.stack.length < s1.stack.length := by rw [A.slen]; exact Nat.lt_succ_self _
     have he : s1.stack[s0.stack.length]? = some s1.stack[s0.stack.length] := List.getElem?_eq_getElem hlt
     generalize s1.stack[s0.stack.length] = e at he
@@ -45,8 +52,8 @@ theorem loop_tot (hyp : Hyp c inst dom) (hb : cfg.budget = none) (hrec : SubSpec
         exact ⟨_, _, rfl⟩
       · have hamb : cur ≠ .ambig := by
           cases A.cur_val with
-          | inl e => rw [e]; exact top_ne_ambig c
-          | inr e => rw [e]; exact bot_ne_ambig c
+          | inl e => rw [e]; exact topOf_ne_ambig inst g
+          | inr e => rw [e]; exact botOf_ne_ambig inst g
         have h1 : reachedFixedPoint old cur = false := by simp [reachedFixedPoint, hoc, hamb]
         simp only [h1, Bool.false_eq_true, if_false]
         have hgr : updateNode (fun n => { n with solution := cur }) s0.graph.length s1.graph =
@@ -57,11 +64,11 @@ theorem loop_tot (hyp : Hyp c inst dom) (hb : cfg.budget = none) (hrec : SubSpec
           show (updateNode _ s0.graph.length s1.graph).take (s0.graph.length + 1) = _
           rw [hgr, take_mid]
           rfl
-        have L2 : LoopSt c inst dom s0 g
+        have L2 : LoopSt inst P dom lvl s0 g
             (rollbackTo (s0.graph.length + 1) (afterRound s0.stack.length s0.graph.length cur s1)) :=
           A.restart ⟨rfl, rfl, rfl, rfl⟩ rfl hg2
         -- the provisional answer was optimistic, the outcome is pessimistic
-        have hold : old = top c ∧ 1 ≤ r := by
+        have hold : old = topOf inst g ∧ 1 ≤ r := by
           cases hr with
           | inl h =>
             have := List.append_cancel_left (A.gt.symm.trans h.2)
@@ -74,25 +81,21 @@ theorem loop_tot (hyp : Hyp c inst dom) (hb : cfg.budget = none) (hrec : SubSpec
             cases A.cur_val with
             | inl e => exact h.2.2 (A.top_inG e)
             | inr e => exact hoc (this.trans e.symm)
-        have hcur : cur = bot c := by
+        have hcur : cur = botOf inst g := by
           cases A.cur_val with
           | inl e => exact absurd (hold.1.trans e.symm) hoc
           | inr e => exact e
         refine loop_tot hyp hb hrec htot hres r _ L2 (Or.inr ⟨hold.2, by rw [hg2, hcur], ?_⟩)
         intro hj
-        cases A.fact with
-        | inl h => rw [hcur] at h; exact absurd h.1.symm (top_ne_bot c)
-        | inr h =>
-          exact J.dual (J.mono (fun j hj => hj.2) h.2)
-            (J.mono (fun j hj => A.restart_sub
+        exact A.fact.not_opt hcur (JV.mono (fun j hj => hj.mono (fun k hk => A.restart_sub
               (s2 := rollbackTo (s0.graph.length + 1) (afterRound s0.stack.length s0.graph.length cur s1))
-              hcur ⟨rfl, rfl, rfl, rfl⟩ hg2 j hj) hj)
+              hcur ⟨rfl, rfl, rfl, rfl⟩ hg2 k hk)) hj)
     · have hc' : e.cycle = false := by cases h' : e.cycle <;> simp_all
       simp only [hc', Bool.not_false, if_true]
       exact ⟨_, _, rfl⟩
 
 theorem finishGoal_tot {s0 : St} {g : Nat} {sub : Min} {s3 : St}
-    (hp : LoopPost c inst dom s0 g sub s3) (m : Min) :
+    (hp : LoopPost inst P dom lvl s0 g sub s3) (m : Min) :
     ∃ v m' s', finishGoal cfg m s0.stack.length s0.graph.length sub s3 = .ok (v, m') s' := by
   obtain ⟨st', s1, old, cur, new, A, hfl, hg3, hlen3, hget3, R3⟩ := hp
   have hg4 : updateNode (fun n => { n with links := sub, stackDepth := none }) s0.graph.length s3.graph =
@@ -123,19 +126,19 @@ theorem finishGoal_tot {s0 : St} {g : Nat} {sub : Min} {s3 : St}
   · simp only [hge, Bool.false_eq_true, if_false]
     exact ⟨_, _, _, rfl⟩
 
-/-- TOTALITY of `solve_goal`: no assert of the framework fires, the stack does not overflow, the
-    loop stops within two rounds -/
-theorem solveGoal_tot (hyp : Hyp c inst dom) (hb : cfg.budget = none)
+/-- TOTALITY of `solve_goal`: no assert of the framework fires, no cycle is judged mixed, the stack
+    does not overflow, the loop stops within two rounds -/
+theorem solveGoal_tot (hyp : MHyp inst P dom lvl) (hb : cfg.budget = none)
     (hov : dom.length ≤ cfg.overflowDepth) (hr : 2 ≤ cfg.rounds) :
-    ∀ d, SubTot c inst dom cfg d (solveGoal inst cfg d)
+    ∀ d, SubTot inst P dom lvl cfg d (solveGoal inst cfg d)
   | 0 => by
-    intro g m s hi _ hres
+    intro g m s hi _ _ hres
     have := hi.stack_le
     omega
   | d + 1 => by
-    intro g m s hi hg hres
+    intro g m s hi hg hbel hres
     have ht := tick_none hb s
-    have i0 : Inv c inst dom { s with work := s.work + 1 } := hi.work _
+    have i0 : Inv inst P dom lvl { s with work := s.work + 1 } := hi.work _
     cases hc : cacheLookup ({ s with work := s.work + 1 } : St) g with
     | some w => exact ⟨_, _, _, solveGoal_cached inst cfg d g m s _ w ht hc⟩
     | none =>
@@ -148,11 +151,8 @@ theorem solveGoal_tot (hyp : Hyp c inst dom) (hb : cfg.budget = none)
         | some depth =>
           obtain ⟨hdl, _⟩ := i0.stk dfn node depth hn hsd
           have hnle : ¬ ({ s with work := s.work + 1 } : St).stack.length ≤ depth := Nat.not_le.mpr hdl
-          have hext := stackExt_setCycle_true depth s.stack
-          have i1 : Inv c inst dom { ({ s with work := s.work + 1 } : St) with stack := setCycle true depth s.stack } :=
-            i0.stackChange rfl ⟨rfl, rfl, rfl, rfl⟩ hext
           have hmix : mixedFrom (setCycle true depth ({ s with work := s.work + 1 } : St).stack) depth = false :=
-            mixedFrom_false i1.stackCo depth
+            hit_not_mixed i0 hbel hn hgo hsd
           simp only [hnle, if_false, hmix, Bool.false_eq_true]
           exact ⟨_, _, _, rfl⟩
       | none =>
@@ -171,16 +171,14 @@ theorem solveGoal_tot (hyp : Hyp c inst dom) (hb : cfg.budget = none)
           omega
         rw [solveGoal_new inst cfg d g m s _ ht hc hl hnov]
         have hspec := solveGoal_sem (cfg := cfg) hyp d
-        have L := push_loopSt hyp i0 hu hg
+        have L := push_loopSt hyp i0 hu hg hbel
         obtain ⟨sub, s3, hloop⟩ := loop_tot hyp hb hspec (solveGoal_tot hyp hb hov hr d)
           (s0 := { s with work := s.work + 1 }) (g := g)
           (by show cfg.overflowDepth < d + (s.stack.length + 1); omega) cfg.rounds _ L
-          (Or.inl ⟨hr, by
-            have hco : inst.coind g = c := hyp.coind g hg
-            simp only [pushed, headNode, top, hco]⟩)
+          (Or.inl ⟨hr, by simp only [pushed, headNode, topOf]⟩)
         rw [hloop]
         exact finishGoal_tot (loop_sem hyp hspec cfg.rounds _ sub s3 L hloop) m
 
 end
 
-end Chalk.FixedPoint.Cyc
+end Chalk.FixedPoint.Mix
